@@ -109,8 +109,8 @@ func (c *FnCtx) toLower(st *State, s *Term) *Term {
 		return ts.Str(strings.ToLower(l))
 	}
 	r := ts.UF("strings.ToLower", SString, s)
-	c.addFact(st, ts.Eq(ts.UF("strings.ToLower", SString, r), r))
-	c.addFact(st, ts.Eq(ts.Eq(s, ts.Str("")), ts.Eq(r, ts.Str(""))))
+	c.addFactT(st, r, ts.Eq(ts.UF("strings.ToLower", SString, r), r))
+	c.addFactT(st, r, ts.Eq(ts.Eq(s, ts.Str("")), ts.Eq(r, ts.Str(""))))
 	return r
 }
 
@@ -174,12 +174,12 @@ func (c *FnCtx) model(fr *Frame, st *State, x *ssa.Call, name string, args []*Te
 	case "strings.ReplaceAll":
 		use("strings.ReplaceAll(s,old,new) = str.replace_all for non-empty old")
 		r := ts.UF("strings.ReplaceAll", SString, args[0], args[1], args[2])
-		c.addFact(st, ts.Implies(ts.Not(ts.Eq(args[1], ts.Str(""))), ts.Eq(r, ts.App("str.replace_all", SString, args[0], args[1], args[2]))))
+		c.addFactT(st, r, ts.Implies(ts.Not(ts.Eq(args[1], ts.Str(""))), ts.Eq(r, ts.App("str.replace_all", SString, args[0], args[1], args[2]))))
 		return []*Term{r}
 	case "strings.Replace":
 		use("strings.Replace(s,old,new,n<0) = str.replace_all for non-empty old")
 		r := ts.UF("strings.Replace", SString, args[0], args[1], args[2], args[3])
-		c.addFact(st, ts.Implies(ts.And(ts.Not(ts.Eq(args[1], ts.Str(""))), ts.Lt(args[3], ts.Int(0))), ts.Eq(r, ts.App("str.replace_all", SString, args[0], args[1], args[2]))))
+		c.addFactT(st, r, ts.Implies(ts.And(ts.Not(ts.Eq(args[1], ts.Str(""))), ts.Lt(args[3], ts.Int(0))), ts.Eq(r, ts.App("str.replace_all", SString, args[0], args[1], args[2]))))
 		return []*Term{r}
 	case "strings.ToLower":
 		use("strings.ToLower: idempotent, preserves emptiness; literal arguments evaluated")
@@ -187,14 +187,14 @@ func (c *FnCtx) model(fr *Frame, st *State, x *ssa.Call, name string, args []*Te
 	case "strings.Trim", "strings.TrimSpace", "strings.TrimLeft", "strings.TrimRight":
 		use(name + ": result is a contiguous substring of the argument")
 		r := ts.UF(name, SString, args...)
-		c.addFact(st, ts.App("str.contains", SBool, args[0], r))
-		c.addFact(st, ts.Le(ts.Len(r), ts.Len(args[0])))
+		c.addFactT(st, r, ts.App("str.contains", SBool, args[0], r))
+		c.addFactT(st, r, ts.Le(ts.Len(r), ts.Len(args[0])))
 		return []*Term{r}
 	// ---------------- bytes ----------------
 	case "bytes.Replace":
 		use("bytes.Replace(s,old,new,-1) = str.replace_all for non-empty old")
 		r := ts.UF("bytes.Replace", SString, args[0], args[1], args[2], args[3])
-		c.addFact(st, ts.Implies(ts.And(ts.Not(ts.Eq(args[1], ts.Str(""))), ts.Lt(args[3], ts.Int(0))), ts.Eq(r, ts.App("str.replace_all", SString, args[0], args[1], args[2]))))
+		c.addFactT(st, r, ts.Implies(ts.And(ts.Not(ts.Eq(args[1], ts.Str(""))), ts.Lt(args[3], ts.Int(0))), ts.Eq(r, ts.App("str.replace_all", SString, args[0], args[1], args[2]))))
 		return []*Term{r}
 	case "bytes.Count":
 		r := ts.UF("bytes.Count", SInt, args[0], args[1])
@@ -336,20 +336,20 @@ func (c *FnCtx) splitModel(st *State, s, sep *Term, depth int) *Term {
 		}
 	}
 	r := ts.UF("strings.Split", SeqOf(SString), s, sep)
-	c.addFact(st, ts.Ge(ts.Len(r), ts.Int(1)))
+	c.addFactT(st, r, ts.Ge(ts.Len(r), ts.Int(1)))
 	nonEmptySep := ts.Not(ts.Eq(sep, ts.Str("")))
 	has := ts.App("str.contains", SBool, s, sep)
-	c.addFact(st, ts.Implies(ts.And(nonEmptySep, ts.Not(has)), ts.Eq(r, ts.Unit(s))))
+	c.addFactT(st, r, ts.Implies(ts.And(nonEmptySep, ts.Not(has)), ts.Eq(r, ts.Unit(s))))
 	if depth > 0 {
 		idx := ts.App("str.indexof", SInt, s, sep, ts.Int(0))
 		head := ts.Extract(s, ts.Int(0), idx)
 		restOff := ts.Add(idx, ts.Len(sep))
 		rest := ts.Extract(s, restOff, ts.Sub(ts.Len(s), restOff))
 		sub := c.splitModel(st, rest, sep, depth-1)
-		c.addFact(st, ts.Implies(ts.And(nonEmptySep, has), ts.Eq(r, ts.Concat(ts.Unit(head), sub))))
+		c.addFactT(st, r, ts.Implies(ts.And(nonEmptySep, has), ts.Eq(r, ts.Concat(ts.Unit(head), sub))))
 	}
 	// Join inverts Split
-	c.addFact(st, ts.Implies(nonEmptySep, ts.Eq(ts.UF("strings.Join", SString, r, sep), s)))
+	c.addFactT(st, r, ts.Implies(nonEmptySep, ts.Eq(ts.UF("strings.Join", SString, r, sep), s)))
 	return r
 }
 
@@ -357,12 +357,12 @@ func (c *FnCtx) joinModel(st *State, parts, sep *Term, depth int) *Term {
 	ts := c.eng.ts
 	r := ts.UF("strings.Join", SString, parts, sep)
 	n := ts.Len(parts)
-	c.addFact(st, ts.Implies(ts.Eq(n, ts.Int(0)), ts.Eq(r, ts.Str(""))))
-	c.addFact(st, ts.Implies(ts.Eq(n, ts.Int(1)), ts.Eq(r, ts.Nth(parts, ts.Int(0)))))
+	c.addFactT(st, r, ts.Implies(ts.Eq(n, ts.Int(0)), ts.Eq(r, ts.Str(""))))
+	c.addFactT(st, r, ts.Implies(ts.Eq(n, ts.Int(1)), ts.Eq(r, ts.Nth(parts, ts.Int(0)))))
 	if depth > 0 {
 		rest := ts.Extract(parts, ts.Int(1), ts.Sub(n, ts.Int(1)))
 		sub := c.joinModel(st, rest, sep, depth-1)
-		c.addFact(st, ts.Implies(ts.Ge(n, ts.Int(2)), ts.Eq(r, ts.Concat(ts.Concat(ts.Nth(parts, ts.Int(0)), sep), sub))))
+		c.addFactT(st, r, ts.Implies(ts.Ge(n, ts.Int(2)), ts.Eq(r, ts.Concat(ts.Concat(ts.Nth(parts, ts.Int(0)), sep), sub))))
 	}
 	return r
 }
